@@ -167,6 +167,88 @@ def run(ctx):
                 ctx.violation('numpy reflect changed the normal array it was given: %s -> %s' % (keep.tolist(), nrm_np.tolist()),
                               {'n': nfix.tolist(), 'api': 'numpy', 'reuse': True}, {'api': 'numpy', 'fn': 'reflect', 'what': 'reused_normal'})
 
+    # ---------------- number types: rays and normals written with integers (axis directions, lattice points) or in another precision than the
+    # other argument.  Every combination the functions accept must give the mirror image / Snell direction computed in real arithmetic.
+    tdt = {'float32': torch.float32, 'float64': torch.float64, 'int32': torch.int32, 'int64': torch.int64}
+    ndt = {'float32': np.float32, 'float64': np.float64, 'int32': np.int32, 'int64': np.int64}
+    axis_dirs = [[0, 0, 1], [0, 1, 0], [-1, 0, 0], [0, 0, -1]]
+    tilted = [[0.0, 0.7071067811865476, 0.7071067811865476], [0.6, 0.0, 0.8], [0.3, -0.4, 0.8660254037844386], [2.0, 1.0, 2.0], [0.0, 3.0, 4.0]]
+    for dray in axis_dirs + [[0.6, 0.0, 0.8]]:
+        for nvec in tilted + [[0, 0, 1], [1, 1, 1]]:
+            d_, n_ = np.array(dray, dtype=np.float64), np.array(nvec, dtype=np.float64)
+            if abs(np.dot(d_, n_)) < 1e-9:
+                continue
+            exact = d_ - 2 * np.dot(d_, n_) / np.dot(n_, n_) * n_
+            ray_int = all(float(v).is_integer() for v in dray)
+            nrm_int = all(float(v).is_integer() for v in nvec)
+            for rdt in tdt:
+                if rdt.startswith('int') and not ray_int:
+                    continue
+                for ndt_ in tdt:
+                    if ndt_.startswith('int') and not nrm_int:
+                        continue
+                    if rdt == ndt_ and rdt.startswith('float'):
+                        continue          # covered above
+                    hitp = [2, -1, 3] if ndt_.startswith('int') else [2.5, -1.25, 3.75]
+                    org = [1, 0, -2] if rdt.startswith('int') else [1.5, 0.25, -2.0]
+                    rec = {'d': dray, 'n': nvec, 'ray_dtype': rdt, 'normal_dtype': ndt_, 'kind': 'dtype_combination'}
+                    ctx.case(('dtypes', tuple(dray), tuple(nvec), rdt, ndt_), True)
+                    ctx.count('dtype_combination/%s ray, %s normal' % (rdt[:3], ndt_[:3]))
+                    for api in ('torch', 'numpy'):
+                        try:
+                            if api == 'torch':
+                                out = LR.reflect(torch.tensor([org, dray], dtype=tdt[rdt]), torch.tensor([hitp, nvec], dtype=tdt[ndt_]))
+                                out = out.detach().double().numpy().reshape(2, 3)
+                            else:
+                                out = np.asarray(NR.reflect(np.array([org, dray], dtype=ndt[rdt]), np.array([hitp, nvec], dtype=ndt[ndt_])), dtype=np.float64).reshape(2, 3)
+                        except Exception:
+                            ctx.count('dtype_combination/rejected by %s' % api)
+                            continue
+                        if not np.allclose(out[1], exact, atol=5e-4) or not np.allclose(out[0], np.array(hitp, dtype=np.float64), atol=1e-5):
+                            ctx.violation('%s reflect with a %s ray %s and a %s normal %s at %s returns start %s, direction %s; the mirror image is %s from the hit point'
+                                          % (api, rdt, dray, ndt_, nvec, hitp, out[0].tolist(), out[1].tolist(), exact.tolist()), dict(rec, api=api),
+                                          {'api': api, 'fn': 'reflect', 'what': 'dtype_combination'})
+    # refraction with mixed number types (torch): normal incidence on an axis and 30 degrees, air to glass
+    for dray, nvec in (([0, 0, 1], [0.0, 0.0, 1.0]), ([0, 0, 1], [0.0, 0.5, 0.8660254037844386]), ([0.0, 0.5, 0.8660254037844386], [0, 0, 1]),
+                       ([0, 0, 1], [0, 0, 2])):
+        d_, n_ = np.array(dray, dtype=np.float64), np.array(nvec, dtype=np.float64)
+        nu = n_ / np.linalg.norm(n_)
+        mu = 1.0 / 1.5
+        cosi = float(np.dot(d_, nu))
+        want = mu * d_ + (math.sqrt(1 - mu * mu * (1 - cosi * cosi)) - mu * cosi) * nu
+        for rdt in tdt:
+            if rdt.startswith('int') and not all(float(v).is_integer() for v in dray):
+                continue
+            for ndt_ in tdt:
+                if ndt_.startswith('int') and not all(float(v).is_integer() for v in nvec):
+                    continue
+                if rdt == ndt_ == 'float64':
+                    continue
+                ctx.case(('dtypes_refract', tuple(dray), tuple(nvec), rdt, ndt_), True)
+                ctx.count('dtype_combination/refract')
+                try:
+                    with time_limit(20.0):
+                        hitp = [0, 0, 1] if ndt_.startswith('int') else [0.0, 0.0, 1.0]
+                        org = [0, 0, 0] if rdt.startswith('int') else [0.0, 0.0, 0.0]
+                        out = LR.refract(torch.tensor([org, dray], dtype=tdt[rdt]), torch.tensor([hitp, nvec], dtype=tdt[ndt_]), 1.0, 1.5)
+                        out = out.detach().double().numpy().reshape(2, 3)
+                except Exception:
+                    ctx.count('dtype_combination/refract rejected')
+                    continue
+                if not np.all(np.isfinite(out[1])):
+                    continue
+                if rdt.startswith('int'):
+                    # refract writes its result into a clone of the ray tensor: an integer-typed ray tensor truncates the refracted direction
+                    # (unchanged tree: [0, 0, 1] int32 with a tilted normal comes back as [0, 0, 0]).  Integer direction cosines are not an
+                    # input the property names; recorded as an observation, not judged
+                    if not np.allclose(out[1], want, atol=2e-2):
+                        ctx.count('dtype_combination/refract integer ray truncated (observation)')
+                    continue
+                if not np.allclose(out[1], want, atol=2e-2):
+                    ctx.violation('torch refract (air to glass) with a %s ray %s and a %s normal %s returns %s; Snell direction is %s'
+                                  % (rdt, dray, ndt_, nvec, out[1].tolist(), want.tolist()),
+                                  {'d': dray, 'n': nvec, 'ray_dtype': rdt, 'normal_dtype': ndt_, 'kind': 'dtype_combination_refract'},
+                                  {'api': 'torch', 'fn': 'refract', 'what': 'dtype_combination'})
     # ---------------- mixed batches: one ray beyond the critical angle (flagged NaN) must not spoil the others of the same call.
     # Run under the watchdog (a non-returning call is C12's subject, not judged here).
     from ..lib.watchdog import Watchdog
